@@ -212,11 +212,11 @@ def time_axis(draw, lo, hi, smin, smax, omega_max, gamma_abs, anticausal=False):
     if draw(st.booleans()):
         n = draw(st.integers(5, 25))
         step = draw(st.floats(0.1, 1.0)) * (smin if draw(st.booleans()) else smax)
-        if omega_max > 0:
+        if omega_max > 1e-9:
             step = min(step, 0.8 / (0.06 * omega_max))
         ts += [ref - sgn * 2 * sig + j * step for j in range(n)]
     ts = sorted({round(float(x), 9) + 0.0 for x in ts})
-    if omega_max > 0 and len(ts) >= 2:
+    if omega_max > 1e-9 and len(ts) >= 2:
         need = 0.8 / (0.06 * omega_max)
         if min(b - a for a, b in zip(ts, ts[1:])) > need:
             j = draw(st.integers(0, len(ts) - 2))
@@ -306,14 +306,14 @@ def doas_noirf_cases(draw):
     ts = [draw(st.floats(-1, 1)) * span for _ in range(draw(st.integers(2, 25)))] + [0.0]
     if draw(st.booleans()):
         step = draw(st.floats(1e-3, 0.5))
-        if om > 0:
+        if om > 1e-9:
             step = min(step, 0.8 / (0.06 * om))
         t0 = draw(st.floats(-1, 1)) * span / 2
         ts += [t0 + j * step for j in range(draw(st.integers(3, 30)))]
     ts = sorted({round(float(x), 9) + 0.0 for x in ts})
     if len(ts) < 2:
         ts.append(ts[0] + 0.01)
-    if om > 0:
+    if om > 1e-9:
         need = 0.8 / (0.06 * om)
         if min(b - a for a, b in zip(ts, ts[1:])) > need:
             j = draw(st.integers(0, len(ts) - 2))
